@@ -46,6 +46,7 @@ def run(ctx):
     res = PropResult('C15')
     K.k1_block(res, ctx, MOD, K1, 'C15.')
     _k5_conformance(res, ctx)
+    K.ord_lex(res, 'C15')
     schema.run_table(res, 'C15', TABLE)
     K.canary_contract(res, MOD, '_eomonth', 'last_day_of_target_month',
                       'is_datetime(result) and tord(result) == fom(mi(tord(start_date)) + I(months)) + 27')
